@@ -135,7 +135,11 @@ def run_names(kind, seed=0, tid=1):
         mk1, mk2 = _two_functions()
         log = []
         a1, a2 = mk1(log), mk2(log)
-        f1, f2, f1b = deco()(a1), deco()(a2), deco()(a1)
+        if seed % 2:
+            one = deco()                 # ONE decorator object applied to both functions
+            f1, f2, f1b = one(a1), one(a2), one(a1)
+        else:
+            f1, f2, f1b = deco()(a1), deco()(a2), deco()(a1)
         for args in ((2,), (2, 3)):
             del log[:]
             r1 = f1(*args)
@@ -145,6 +149,18 @@ def run_names(kind, seed=0, tid=1):
             del log[:]
             r3 = f1b(*args)
             ev.append({'ev': 'names', 'q1': a1.__qualname__, 'q2': a1.__qualname__, 'shared': 1 if log == [] else 0, 'r2ok': 1 if r3 == r1 else 0})
+        # a function whose result is None (and 0, '' ...): the stored result is served, the function does not run again
+        for result in (None, 0, '', False):
+            runs = []
+
+            def const(x, _r=result):
+                runs.append(x)
+                return _r
+            const.__qualname__ = 'const_%r' % (result,)
+            fc = deco()(const)
+            r1, r2 = fc(5), fc(5)
+            ev.append({'ev': 'names', 'q1': const.__qualname__, 'q2': const.__qualname__, 'shared': 1 if len(runs) == 1 else 0,
+                       'r2ok': 1 if (r1 is result or r1 == result) and type(r2) is type(result) and r2 == result else 0})
         try:
             c.close()
         except Exception:
@@ -222,6 +238,11 @@ def run_stampede(seed=0, tid=1):
             if threading.active_count() <= before:
                 break
             envctl._real_sleep(0.01)
+        # a further call that also draws "recompute early" while the first recomputation's marker is still there is
+        # served from the cache: it neither starts another recomputation nor runs the function itself
+        seen = calls[0]
+        r2b = f(1)
+        marker_ok = 1 if calls[0] == seen and r2b == r1 else 0
         _r.random = lambda: 0.999999
         try:
             r3 = f(1, None)
@@ -240,7 +261,7 @@ def run_stampede(seed=0, tid=1):
             envctl._real_sleep(0.01)
         _r.random = lambda: 0.999999
         k3 = f(2, b='a')                          # served from the entry the early recomputation stored
-        ok12 = 1 if r1 == r2 == repr(((1,), [])) and k1 == k2 == k3 == repr(((2,), [('b', 'a')])) else 0
+        ok12 = 1 if marker_ok and r1 == r2 == repr(((1,), [])) and k1 == k2 == k3 == repr(((2,), [('b', 'a')])) else 0
         c.close()
         return {'id': tid, 'kind': 'stampede', 'ev': [{'ev': 'stamp', 'rok': rok, 'ok12': ok12, 'calls': calls[0]}]}
     finally:
